@@ -32,16 +32,30 @@ def _unwrap_try(n):
     return n
 
 
+def _disjuncts(e):
+    while isinstance(e, dict) and e.get("k") == "paren":
+        e = e["e"]
+    if isinstance(e, dict) and e.get("k") == "binary" and e["op"] == "||":
+        return _disjuncts(e["l"]) + _disjuncts(e["r"])
+    return [e]
+
+
 def _is_purge_stmt(s):
-    """`self.purge_*()?;` or `if !self.deferred_plusplus.is_empty() { ..; self.purge_*()?; }`"""
+    """`self.purge_*()?;` or `if !self.deferred_plusplus.is_empty() [|| ..] { ..; self.purge_*()?; }` -> name of the purge, or None"""
     c = _unwrap_try(s)
     if _self_call(c, PURGES):
-        return True
+        return c["method"]
     if isinstance(s, dict) and s.get("k") == "if" and s.get("else") is None:
-        ct = expr_text(s["cond"]).replace(" ", "")
-        if "deferred_plusplus.is_empty()" in ct and ct.startswith("!") or ct.startswith("(!"):
-            return any(_is_purge_stmt(x) for x in (s["then"].get("stmts") or []))
-    return False
+        ds = [expr_text(d).replace(" ", "").strip("()") for d in _disjuncts(s["cond"])]
+        if "!self.deferred_plusplus.is_empty" in ds or "!self.deferred_plusplus.is_empty()" in ds:
+            for x in (s["then"].get("stmts") or []):
+                nm = _is_purge_stmt(x)
+                if nm:
+                    # the saved Y is restored only if that is a reason to enter, too
+                    if nm == "purge_deferred_plusplus_and_savey" and "self.saved_y" not in ds:
+                        return "purge_deferred_plusplus"
+                    return nm
+    return None
 
 
 def _leaving(n):
@@ -62,6 +76,16 @@ def _leaving(n):
     if m == "sasm" and n.get("args") and n["args"][0].get("k") == "path" and n["args"][0]["segs"][-1] in ("RTS", "RTI"):
         return n["args"][0]["segs"][-1]
     return None
+
+
+def _function_exit(n):
+    if not _self_call(n):
+        return False
+    if n["method"] == "sasm" and n.get("args") and n["args"][0].get("k") == "path" and n["args"][0]["segs"][-1] in ("RTS", "RTI"):
+        return True
+    if n["method"] == "asm" and len(n.get("args", [])) > 1 and n["args"][0].get("k") == "path" and n["args"][0]["segs"][-1] == "JMP" and ".endof" in expr_text(n["args"][1]):
+        return True
+    return False
 
 
 def _emitting(n):
@@ -122,8 +146,9 @@ def _first_after(node, par, what):
     A purge only counts as a statement of its own (not nested in a condition other than the
     emptiness test), `what(call)` names the calls looked for."""
     for s in _after(node, par):
-        if _is_purge_stmt(s):
-            return ("purge", s, None)
+        nm = _is_purge_stmt(s)
+        if nm:
+            return ("purge", s, nm)
         for x in walk(s):
             nm = what(x)
             if nm:
@@ -205,7 +230,7 @@ def t_seq_point(facts, res, tier):
             if discarded:
                 r = _first_after(top, par, _emitting)
                 ok = r is not None and r[0] == "purge"
-                res.inst(base + ":discard", True, {"function": f["name"], "expression": arg, "then": "purge" if ok else (r[2] if r else "end of function")})
+                res.inst(base + ":discard", True, {"function": f["name"], "expression": arg, "then": r[2] if r else "end of function"})
                 if not ok:
                     res.fail(base + ":discard", facts.where(f, c),
                              "%s evaluates `%s` for its side effects only and then %s without applying the pending postfix ++/--: they take effect "
@@ -217,7 +242,14 @@ def t_seq_point(facts, res, tier):
                 continue
             r = _first_after(top, par, _leaving)
             if r is None or r[0] == "purge":
-                res.inst(base + ":leave", True, {"function": f["name"], "expression": arg, "then": "purge" if r else "nothing that leaves"})
+                res.inst(base + ":leave", True, {"function": f["name"], "expression": arg, "then": r[2] if r else "nothing that leaves"})
+                # leaving the *function*: the Y register saved for an index (saved_y) is restored as well
+                if r is not None and r[2] != "purge_deferred_plusplus_and_savey":
+                    exits = [x for s2 in _after(r[1], par) for x in walk(s2) if _function_exit(x)]
+                    if exits:
+                        res.fail(base + ":leave:saved-y", facts.where(f, exits[0]),
+                                 "%s evaluates `%s`, applies the pending ++/-- with %s and then leaves the function: a Y register saved for an index of the expression (saved_y) "
+                                 "is restored after the RTS only, the caller gets the index in Y" % (f["name"], arg, r[2]))
             else:
                 res.inst(base + ":leave", True, {"function": f["name"], "expression": arg, "then": r[2]})
                 res.fail(base + ":leave", facts.where(f, c),
